@@ -156,6 +156,12 @@ pub fn render_obo(f: &FactSet, rng: &mut Rng, o: &JaxOpts) -> String {
         if name_last {
             lines.push(format!("name: {}", t.name));
         }
+        if o.noise && rng.chance(1, 8) {
+            // ... and the id tag need not be the first one either
+            let id_line = lines.remove(0);
+            let pos = rng.urange(1, lines.len());
+            lines.insert(pos, id_line);
+        }
         for l in lines {
             s.push_str(&l);
             s.push('\n');
@@ -170,6 +176,10 @@ pub fn render_obo(f: &FactSet, rng: &mut Rng, o: &JaxOpts) -> String {
             "[Typedef]\nid: is_a\nname: is_a: HP:0000001 ! trap\nxref: RO:0000000\nis_transitive: true\n".to_string(),
         );
         stanzas.push("[Typedef]\nid: HP:0000999\nname: typedef that looks like a term\n".to_string());
+        // a [Term] stanza without a name is not a term (it is skipped as a whole, links included)
+        if rng.chance(1, 2) {
+            stanzas.push("[Term]\nid: HP:0000997\nis_a: HP:0000001 ! All\nis_a: HP:0000118 ! Phenotypic abnormality\n".to_string());
+        }
         if rng.chance(1, 2) {
             stanzas.push("[Instance]\nid: HP:0000998\nname: an instance stanza\n".to_string());
         }
@@ -212,11 +222,23 @@ pub fn render_obo(f: &FactSet, rng: &mut Rng, o: &JaxOpts) -> String {
 
 pub fn render_hpoa(f: &FactSet, rng: &mut Rng, o: &JaxOpts) -> String {
     let mut rows: Vec<String> = Vec::new();
+    // reference, evidence, onset, frequency, sex, modifier, aspect, biocuration: the frequency column is
+    // free for this loader (ratios incl. 0/n, percentages, HPO frequency terms, empty)
+    let tails: Vec<String> = ["1/2", "0/7", "0%", "0.5%", "", "HP:0040283", "12/12", "100%"]
+        .iter()
+        .map(|fq| format!("PMID:1\tPCS\t\t{fq}\t\t\tP\tHPO:probinson[2021-06-21]"))
+        .collect();
+    let tail_idx = rng.next_u64() as usize;
+    let mut tail_n = 0usize;
+    let mut next_tail = move || {
+        tail_n += 1;
+        tails[(tail_idx + tail_n * 7) % tails.len()].clone()
+    };
     let tail = "PMID:1\tPCS\t\t1/2\t\t\tP\tHPO:probinson[2021-06-21]";
     for (k, prefix) in [(1usize, "OMIM"), (2usize, "ORPHA")] {
         for r in &f.recs[k] {
             for t in &r.terms {
-                rows.push(format!("{prefix}:{}\t{}\t\t{}\t{tail}", r.id, r.name, hp(*t)));
+                rows.push(format!("{prefix}:{}\t{}\t\t{}\t{}", r.id, r.name, hp(*t), next_tail()));
             }
         }
     }
